@@ -214,7 +214,11 @@ class C04(HistoryProfile):
     return out
 
   def _post_failure_checks(self, sim, proc, pre, what, prop_oracle_prefix=""):
-    post = proc.snapshot()
+    try:
+      post = proc.snapshot()
+    except AssertionError as e:
+      raise vio(sim, prop_oracle_prefix + "rollback-state",
+                "%s left a trace: the document cannot be read back (%s)" % (what, str(e)[:200]))
     d = eq.diff(pre, post)
     if d:
       raise vio(sim, prop_oracle_prefix + "rollback-state",
